@@ -119,6 +119,25 @@ CLAIMED = {
                   "helpers are proved independent for all 64-bit state words by BVX.",
              note="Trusted: env/memfs.py, env/aio.py, in-memory websocket pair wired to frontend.server.connector.handler (closes "
                   "the connection when the handler ends, as the websockets library does).", ref="3/C11"),
+ "C12": dict(cat="model_checking", tech="bounded schedule exploration by symbolic execution (CrossHair/z3) of the real ServicesManager on a cooperative runtime",
+             text="The next external event (open / next scripted request / close of a connection, expiry of a cleanup delay) is a "
+                  "solver-chosen index into the enabled set, so every interleaving of the bounded scripts (2 connections x <= 2 "
+                  "requests, 3 connections x <= 1 request) is one path through the real create_service / "
+                  "clean_service_when_close_connection / Service code; each path checks mutual exclusion of served connections, "
+                  "no roll-back of acknowledged state (probe connection after quiescence) and that an acknowledged index is the "
+                  "one searched. All path trees are exhausted.",
+             note="Two genuine defects of the unchanged tree are open findings (stale snapshot written back; two waiters released "
+                  "together); violations on schedules that contain those structural patterns are reported as KNOWN-FINDING, every "
+                  "other violation as VIOLATION - a new defect that only shows on such schedules would be masked. Trusted: "
+                  "env/aio.py (run-to-next-await, FIFO lock wake-up), env/memfs.py, fake websockets.", ref="3/C12"),
+ "C13": dict(cat="fault_enumeration", tech="bounded crash-point exploration by symbolic execution (CrossHair/z3) over a file-system model with kill semantics",
+             text="The interrupted workflow step and the crash point (every state-changing file operation of the client and of the "
+                  "server during that step, before and after it) are solver variables; the kill drops user-space buffers and every "
+                  "in-memory object; fresh services over the same files must accept the handshake, and the rest of the workflow "
+                  "(re-create if creation never returned, retry the interrupted step when the state asks for it) must end in "
+                  "correct searches.",
+             note="Trusted: env/memfs.py kill semantics (buffer lost before close, rename atomic), env/aio.py. Index below the "
+                  "8 KiB buffer size; partial flushes of a large index are outside.", ref="3/C13"),
 }
 
 NOT_APPLICABLE = {
